@@ -65,6 +65,7 @@ type Op struct {
 	SleepNs int64  `json:"sleep_ns,omitempty"` // handler takes this much fake time
 	GapNs   int64  `json:"gap_ns,omitempty"`   // sub: producer pause between values
 	Raw     string `json:"raw,omitempty"`      // C10: hostile frame / body text
+	Group   int    `json:"group,omitempty"`    // C06: ops with the same group share one cancellable context
 	Stall   bool   `json:"stall,omitempty"`    // sub: the consumer never reads
 	Consume int    `json:"consume,omitempty"`  // sub: stop reading after k values (0 = all)
 }
